@@ -351,7 +351,10 @@ def run(ctx):
                                      expected={str(k): v for k, v in contents["expected"].items()})
                          if ctx.rng.random() < 0.0008 else None)
                 ctx.traces += 1
-    ctx.exhaustive = True
+    # every layout and every table entry is enumerated by TLC; the implementation sees every layout x
+    # flavour with a SEEDED choice of contents, so the replayed product is not exhaustive
+    ctx.exhaustive = False
+    ctx.extra["exhaustive_parts"] = ["TLC: core semantics, layouts, oracle table", "replay: every layout x single-head flavour"]
     ctx.extra["layouts"] = len(layouts)
     ctx.extra["table_entries"] = len(table)
     ctx.extra["negative_dim_layouts"] = len([l for l in layouts if l["dim"] < 0])
